@@ -42,11 +42,16 @@ def run_trace_spec(module, recs, tag, nproc=1, timeout=1800, extra_blobs=None, e
                 raise ToolError("trace validation %s failed to run: %s" % (module, r.error or r.violated))
             if r.distinct != n + 1:
                 raise ToolError("trace validation %s consumed %d of %d records\n%s" % (module, r.distinct - 1, n, "\n".join(r.lines[-10:])))
+            nflag = 0
             for ln in r.prints:
-                if isinstance(ln, str) and ln.startswith("<<"):
-                    m = re.match(r'<<"(\w+)", (-?\d+), (.*)>>$', ln)
-                    if m:
-                        flags.append((m.group(1), int(m.group(2)), m.group(3)))
+                if isinstance(ln, str) and ln.startswith("FLAG "):
+                    kind, case, what = json.loads(ln[5:])
+                    flags.append((kind, int(case), json.dumps(what)))
+                    nflag += 1
+            # safety net: every flag the specification raised must have been understood
+            raised = sum(1 for ln in r.lines if "FLAG " in ln)
+            if raised != nflag:
+                raise ToolError("trace validation %s: %d flag lines printed but %d parsed" % (module, raised, nflag))
             results.append(r)
             for p in (tp, dp):
                 try:
